@@ -104,7 +104,7 @@ def gen_case(rng, supervised, lda_tail=False):
           if few_triplets:
             ntrip = int(rng.integers(d, 6))          # fewer triplets than the mini-batch holds (sampling is with replacement)
           idx = gen.triplets_from(rng, X, y, ntrip)
-          est = gen.SCML(**kw).fit(X[idx])
+          est, ev['how'] = gen.fit_tuples_via(rng, gen.SCML(**kw), X, idx)
       ev['lowrank_warning'] = any('reduces the dimension' in str(x.message) for x in wrn)
       ev['L'] = dym(est.components_)
       if pr.basis is not None and pr.dd is not None:
